@@ -206,7 +206,13 @@ def gen_cases(ctx, nl, rays_per, seed_mul=11):
     warnings.simplefilter('ignore')
     rng = random.Random(ctx.seed * seed_mul + 7)
     cases = []
-    hist = {'lenses': 0, 'build_errors': 0, 'kinds': {}, 'skipped_precondition': {}, 'trace_errors': 0}
+    hist = {'lenses': 0, 'build_errors': 0, 'kinds': {}, 'skipped_precondition': {}, 'trace_errors': 0,
+            'lenses_with_vignetting_factors': 0,
+            'mirror_pairs': {'vignetted_field_and_offaxis_pupil': 0, 'with_negative_Hx': 0, 'with_negative_Hy': 0,
+                             'mx': 0, 'my': 0, 'mx_my': 0},
+            'dummy_split': {'interior': 0, 'contact_previous_vertex(f=0)': 0, 'contact_next_vertex(f=1)': 0},
+            'dummy_gap': {'first': 0, 'inner': 0, 'last(before image)': 0},
+            'dummy_skipped_plane_outside_gap': {'interior': 0, 'contact_previous_vertex(f=0)': 0, 'contact_next_vertex(f=1)': 0}}
 
     def add(kind, **kw):
         hist['kinds'][kind] = hist['kinds'].get(kind, 0) + 1
@@ -222,6 +228,16 @@ def gen_cases(ctx, nl, rays_per, seed_mul=11):
             for s_ in spec['surfaces']:
                 if isinstance(s_.get('material'), list) and s_['material'][0] == 'ideal':
                     s_['material'][2] = 0.0
+        vign = (li % 2 == 1)
+        if vign:
+            # fields along y that carry vignetting factors (vx, vy), growing with the field as in a real lens
+            mf = max(f[0] for f in spec['fields']) or rng.uniform(1.0, 8.0)
+            nf = rng.choice([2, 3, 4])
+            spec['fields'] = [[mf * j / (nf - 1), 0.0,
+                               (rng.uniform(0.0, 0.3) * j / (nf - 1)) if j else rng.choice([0.0, 0.0, 0.05]),
+                               (rng.uniform(0.05, 0.45) * j / (nf - 1)) if j else rng.choice([0.0, 0.0, 0.05])]
+                              for j in range(nf)]
+            hist['lenses_with_vignetting_factors'] += 1
         try:
             o = L.build(spec)
         except Exception:   # noqa
@@ -231,7 +247,13 @@ def gen_cases(ctx, nl, rays_per, seed_mul=11):
         w = [x for x, p in spec['wavelengths'] if p][0]
         surfs0 = lensgen.model_surfaces(o, w)
         nS = len(spec['surfaces'])
-        for (Hx, Hy, Px, Py) in _rays(rng, rays_per):
+        contact_done = False
+        rays = _rays(rng, rays_per)
+        if vign:
+            # an off-axis field point (either sign) with an off-axis pupil point, where the vignetting factors act
+            rays.append((rng.choice([0.0, 0.0, 0.4, -0.4]), rng.choice([1.0, -1.0, 0.6, -0.6]),
+                         rng.choice([0.0, 0.5, -0.5]), rng.choice([1.0, -1.0, 0.7, -0.7])))
+        for (Hx, Hy, Px, Py) in rays:
             r0 = L.trace(o, Hx, Hy, Px, Py, w)
             if r0[0] != 'ok':
                 hist['trace_errors'] += 1
@@ -239,11 +261,18 @@ def gen_cases(ctx, nl, rays_per, seed_mul=11):
             recs0 = r0[1]
             common = dict(spec=spec, ray=[Hx, Hy, Px, Py], w=w, surfs0=surfs0, base=recs0)
             # ---- mirrors
-            bx, by = rng.choice([(True, False), (False, True), (True, True)])
-            r1 = L.trace(o, -Hx if bx else Hx, -Hy if by else Hy, -Px if bx else Px, -Py if by else Py, w)
-            if r1[0] == 'ok':
-                d = max(L.rec_diff(L.mirror_rec(a, bx, by), b) for a, b in zip(recs0, r1[1]))
-                add('mirror', params={'mx': bx, 'my': by}, timpl=r1[1], direct=d, tol=1e-12, **common)
+            kinds3 = [(True, False), (False, True), (True, True)]
+            for bx, by in (kinds3 if vign else [rng.choice(kinds3)]):
+                Hx1, Hy1 = (-Hx if bx else Hx), (-Hy if by else Hy)
+                r1 = L.trace(o, Hx1, Hy1, -Px if bx else Px, -Py if by else Py, w)
+                if r1[0] == 'ok':
+                    d = max(L.rec_diff(L.mirror_rec(a, bx, by), b) for a, b in zip(recs0, r1[1]))
+                    add('mirror', params={'mx': bx, 'my': by}, timpl=r1[1], direct=d, tol=1e-12, **common)
+                    mp = hist['mirror_pairs']
+                    mp['mx' if (bx and not by) else 'my' if (by and not bx) else 'mx_my'] += 1
+                    mp['with_negative_Hx'] += int(min(Hx, Hx1) < 0)
+                    mp['with_negative_Hy'] += int(min(Hy, Hy1) < 0)
+                    mp['vignetted_field_and_offaxis_pupil'] += int(bool(vign and (Hx or Hy) and (Px or Py)))
             # ---- scaling by an independently built scaled lens
             s = 2.0 ** rng.randint(-6, 6) if rng.random() < 0.5 else 10 ** rng.uniform(-2, 2)
             exact = (math.log2(s) == int(math.log2(s)))
@@ -256,35 +285,55 @@ def gen_cases(ctx, nl, rays_per, seed_mul=11):
                 d = max(L.rec_diff(L.scale_rec(a, s), b, fields=['x', 'y', 'z', 'L', 'M', 'N', 'opd'], scale=s * 100)
                         for a, b in zip(recs0, r2[1]))
                 add('scale', params={'s': s}, timpl=r2[1], direct=d, tol=(1e-11 if exact else 2e-6), **common)
-            # ---- dummy surface
-            gap = rng.randrange(nS)
-            frac = rng.uniform(0.05, 0.95)
-            sp = L.dummy_spec(spec, gap, frac)
-            if sp is not None:
+            # ---- dummy surface: a random interior split of a random gap for every ray and, for the first ray of the
+            #      lens, the two CONTACT splits (f = 0: dummy on the previous vertex, f = 1: on the next vertex, i.e. a
+            #      zero thickness in the prescription) of EVERY gap from behind surface 1 to the image
+            plan = [(rng.randrange(nS), rng.uniform(0.05, 0.95), 'interior')]
+            if not contact_done:
+                contact_done = True
+                for g_ in range(nS):
+                    plan.append((g_, 0.0, 'contact_previous_vertex(f=0)'))
+                    plan.append((g_, 1.0, 'contact_next_vertex(f=1)'))
+            for gap, frac, cls in plan:
+                sp = L.dummy_spec(spec, gap, frac)
+                if sp is None:
+                    continue
                 try:
                     o3 = L.build(sp)
                     r3 = L.trace(o3, Hx, Hy, Px, Py, w)
                 except Exception:   # noqa
                     r3 = ('err',)
-                if r3[0] == 'ok':
-                    drec = r3[1][gap + 2]
-                    a, b = recs0[gap + 1], recs0[gap + 2]
-                    # precondition: the dummy plane is met between the two neighbouring intersections
-                    t_tot = (b[7] - a[7])
-                    t_1 = (drec[7] - r3[1][gap + 1][7]) if _finite(drec) else float('nan')
-                    ok_pre = _finite(a) and _finite(b) and _finite(drec) and -1e-9 <= t_1 <= t_tot + 1e-9
-                    if not ok_pre:
-                        skip('dummy')
-                    else:
-                        recs = r3[1][:gap + 2] + r3[1][gap + 3:]
-                        # from the first real surface on: the launch PLANE of an infinite object is placed from the vertex
-                        # list (in front of every vertex), so the same ray may be recorded at another point of its line
-                        d = max(L.rec_diff(x, y, scale=100) for x, y in zip(_rel_opd(recs0)[1:], _rel_opd(recs)[1:]))
-                        zd = float(o3.surface_group.surfaces[gap + 2].geometry.cs.z)
-                        nd = surfs0[gap]['n2']
-                        add('dummy', params={'gap': gap, 'frac': frac, 'zd': zd, 'n': nd,
-                                             'shift': float(o3.surface_group.surfaces[1].geometry.cs.z)},
-                            timpl=r3[1], direct=d, tol=1e-9, **common)
+                if r3[0] != 'ok':
+                    continue
+                drec = r3[1][gap + 2]
+                a, b = recs0[gap + 1], recs0[gap + 2]
+                # precondition: the dummy plane is met between the two neighbouring intersections (a plane through the
+                # vertex of a curved neighbour cuts into it; for that ray it is not "in the gap")
+                t_tot = (b[7] - a[7])
+                t_1 = (drec[7] - r3[1][gap + 1][7]) if _finite(drec) else float('nan')
+                ok_pre = _finite(a) and _finite(b) and _finite(drec) and -1e-9 <= t_1 <= t_tot + 1e-9
+                # a dummy in contact with a CURVED neighbour is tangent to it at the vertex: for a ray through (or within
+                # rounding of) the vertex the plane is in the gap or beyond the surface by ~r^2/2R ~ 1e-30, which binary64
+                # cannot tell; such rays are outside the precondition (a plane neighbour is an exact contact and is kept)
+                if ok_pre and frac == 0.0 and surfs0[gap]['shape'][0] != 'plane':
+                    ok_pre = t_1 > 1e-7
+                if ok_pre and frac == 1.0 and surfs0[gap + 1]['shape'][0] != 'plane':
+                    ok_pre = t_tot - t_1 > 1e-7
+                if not ok_pre:
+                    skip('dummy')
+                    hist['dummy_skipped_plane_outside_gap'][cls] += 1
+                    continue
+                recs = r3[1][:gap + 2] + r3[1][gap + 3:]
+                # from the first real surface on: the launch PLANE of an infinite object is placed from the vertex
+                # list (in front of every vertex), so the same ray may be recorded at another point of its line
+                d = max(L.rec_diff(x, y, scale=100) for x, y in zip(_rel_opd(recs0)[1:], _rel_opd(recs)[1:]))
+                zd = float(o3.surface_group.surfaces[gap + 2].geometry.cs.z)
+                nd = surfs0[gap]['n2']
+                hist['dummy_split'][cls] += 1
+                hist['dummy_gap']['first' if gap == 0 and nS > 1 else 'last(before image)' if gap == nS - 1 else 'inner'] += 1
+                add('dummy', params={'gap': gap, 'frac': frac, 'split': cls, 'zd': zd, 'n': nd,
+                                     'shift': float(o3.surface_group.surfaces[1].geometry.cs.z)},
+                    timpl=r3[1], direct=d, tol=1e-9, **common)
             # ---- tilt about the centre of curvature (same ray in, same ray out)
             idx = rng.randrange(nS)
             ang = rng.uniform(-0.3, 0.3)
